@@ -2,11 +2,12 @@
 
 package utils
 
-import "sync"
-
 // VerifResetLocalLocks empties the process-wide lock registry (lock objects hold channels and
 // contexts that must not outlive one verification execution).
 // Verification hook: compiled only with -tags verif.
 func VerifResetLocalLocks() {
-	localLockMap = sync.Map{}
+	localLockMap.Range(func(k, v interface{}) bool {
+		localLockMap.Delete(k)
+		return true
+	})
 }
